@@ -15,4 +15,5 @@ PROPERTY GmTouchesOnlyItsCache
 PROPERTY Precedence
 PROPERTY DeriveIgnoresCache
 PROPERTY CopiesCarryData
+PROPERTY CovIsAnObservation
 CHECK_DEADLOCK FALSE
